@@ -125,7 +125,9 @@ class database(fs_template.FsBased):
             except OSError as e:
                 raise KeyError(d, f"access failure: {e}") from e
             for l in subdirs:
-                if l.endswith(".cpickle"):
+                if l.endswith(".cpickle") or l.startswith(".update."):
+                    # .update.<pid>.<name> is _setitem's temp file; an interrupted
+                    # store leaves it behind and it is not a package
                     continue
                 p = pjoin(d, l)
                 try:
